@@ -145,6 +145,7 @@ type Interp struct {
 	initMode   bool
 	allowUserInit map[string]bool
 	methodExprs map[*ssa.Function]*FuncV
+	syncMaps    map[*Value]*MapV // state of sync.Map values, by address
 	extraFuncs []*FuncV
 	symStrHooks map[string]symStrHook
 	xWanted    int
